@@ -285,7 +285,7 @@ static void judge(int mode, const uint8_t *in, size_t inlen, const rverdict *rv,
 static int fault_class(int f)
 {
 	switch (f) { case DGF_BTYPE3: case DGF_LENNLEN: case DGF_HLIT: case DGF_CL_OVERSUB: case DGF_LL_OVERSUB: case DGF_DIST_OVERSUB: case DGF_REP_NOPREV: case DGF_REP_OVERRUN: case DGF_NO_EOB: return ISAL_INVALID_BLOCK;
-	case DGF_BAD_LENSYM: case DGF_BAD_DISTSYM: case DGF_UNASSIGNED: case DGF_NODIST_MATCH: return ISAL_INVALID_SYMBOL; case DGF_FARDIST: return ISAL_INVALID_LOOKBACK; default: return 0; }
+	case DGF_BAD_LENSYM: case DGF_BAD_DISTSYM: case DGF_UNASSIGNED: case DGF_NODIST_MATCH: case DGF_UNASSIGNED_DIST: return ISAL_INVALID_SYMBOL; case DGF_FARDIST: return ISAL_INVALID_LOOKBACK; default: return 0; }
 }
 
 /* ------------------------------------------------------------------ workloads */
